@@ -337,6 +337,15 @@ func runSessions(runs []*sessionRun, pipelined bool, T time.Duration, r *rand.Ra
 				return v, nil
 			}
 			run.conn.L.Add("requestAuth:%s:fail", k)
+			// a rejection is a rejection whatever the error value looks like: plain, carrying a (nil) cause, or a protocol error
+			switch kk, _ := strconv.Atoi(k); kk % 4 {
+			case 1:
+				return nil, causedErr{"request auth rejected (wrong password)", nil}
+			case 2:
+				return nil, reasonErr{"request auth rejected", kmip.RESULT_REASON_AUTHENTICATION_NOT_SUCCESSFUL}
+			case 3:
+				return "a value returned together with the error must not be used", causedErr{"request auth rejected", errors.New("backend")}
+			}
 			return nil, errors.New("request auth rejected")
 		}
 	}
@@ -526,8 +535,11 @@ func driveClient(run *sessionRun, pipelined bool, T time.Duration, r *rand.Rand)
 				full := encodeReq(k, &sReq{maj: 1, min: 4, bc: 1, writeOk: true, items: []sItem{{op: opActivate, payload: 0}}})
 				_, _ = c.Write(full[:len(full)-5])
 				closeAtEnd = true
-			case "extra-item", "bad-type", "bad-tag", "mutated":
+			case "extra-item", "bad-type", "bad-tag", "mutated", "hostile-length":
 				_, _ = c.Write(malformedRequest(k, a.how))
+				if a.how == "hostile-length" {
+					closeAtEnd = true // the announced bytes never come: the peer leaves (otherwise a server without ReadTimeout rightly waits)
+				}
 			case "stall":
 				full := encodeReq(k, &sReq{maj: 1, min: 4, bc: 1, writeOk: true, items: []sItem{{op: opActivate, payload: 0}}})
 				_, _ = c.Write(full[:12])
@@ -752,7 +764,7 @@ func genScript(r *rand.Rand, common sCfg, saConfigured bool, o scriptOpts) (sCfg
 			}
 			arrs = append(arrs, sArr{kind: 'R', req: q})
 		case x < 88 || (last && x < 50):
-			how := []string{"garbage", "wrongtype", "truncated-close", "extra-item", "bad-type", "bad-tag", "mutated"}[r.Intn(7)]
+			how := []string{"garbage", "wrongtype", "truncated-close", "extra-item", "bad-type", "bad-tag", "mutated", "hostile-length"}[r.Intn(8)]
 			if o.allowStall && cfg.rt && r.Intn(3) == 0 {
 				how = "stall"
 			}
@@ -779,6 +791,17 @@ func malformedRequest(k int, how string) []byte {
 	setLen := func(b []byte, off int, l uint32) { binary.BigEndian.PutUint32(b[off+4:], l) }
 	extra := []byte{0x42, 0x00, 0x6a, 0x02, 0, 0, 0, 4, 0, 0, 0, 7, 0, 0, 0, 0}
 	switch how {
+	case "hostile-length":
+		// a string item the decoder reaches (Client Correlation Value) declaring a length at or near 2^32, nothing behind it
+		withCorr := encodeReq(k, &sReq{maj: 1, min: 4, bc: 1, corr: "abc", writeOk: true, items: []sItem{{op: opActivate, payload: 0}}})
+		for _, n := range mut.All(mut.Parse(withCorr)) {
+			if n.Tag == 0x420105 {
+				b := append([]byte(nil), withCorr[:n.Off+8]...)
+				setLen(b, n.Off, []uint32{1<<32 - 1, 1<<32 - 4, 1<<32 - 7, 1<<32 - 8, 1<<31 - 4}[k%5])
+				return b
+			}
+		}
+		return full[:9]
 	case "extra-item":
 		b := append(append([]byte(nil), full...), extra...)
 		setLen(b, 0, uint32(len(b)-8))
